@@ -1150,3 +1150,94 @@ func reentFamily() []Scenario {
 	}
 	return out
 }
+
+// ---------------------------------------------------------------- family "grace" (C12): orderly close and shutdown, enumerated
+
+// graceScenario: buffered (0..2 sends, no poll taken) x pending poll or not x transport x what follows the graceful Close.
+func graceScenario(name string, kind string, buffered int, pendingPoll bool, follow string, fast bool) Scenario {
+	return Scenario{Name: name, Run: func(t *testing.T, rec *Rec, g *Gates) {
+		cfg := EngCfg{PI: 25 * time.Second, PT: 20 * time.Second}
+		if fast {
+			cfg = EngCfg{PI: 2 * time.Second, PT: time.Second}
+		}
+		w := newEngWorld(t, rec, g, cfg)
+		sc := &Script{w: w, r: rand.New(rand.NewSource(1)), cfg: cfg, W: map[string]int{}}
+		var c *cliSess
+		if kind == "websocket" {
+			s := &Sess{Proto: 4}
+			c = &cliSess{S: s, Kind: "websocket"}
+			c.ws = w.DialWS(s, "", nil, func(wc *WSClient, p Pkt) { sc.processPkts(c, []Pkt{p}, wc) })
+		} else {
+			s, _ := w.Handshake(4, false, false, ReqOpt{})
+			c = &cliSess{S: s, Kind: "polling"}
+		}
+		sc.ss = append(sc.ss, c)
+		sc.settle()
+		// a second, idle session: shutdown must close it too
+		s2, _ := w.Handshake(4, false, false, ReqOpt{})
+		c2 := &cliSess{S: s2, Kind: "polling"}
+		sc.ss = append(sc.ss, c2)
+		if c.S.Sid == "" {
+			w.Finish()
+			return
+		}
+		sid := c.S.Sid
+		if pendingPoll {
+			sc.doPoll(c)
+			sc.settle()
+		}
+		for i := 0; i < buffered; i++ {
+			w.Send(sid, SendOpt{Size: 5})
+		}
+		sc.settle()
+		w.Close(sid, false)
+		sc.settle()
+		switch follow {
+		case "poll": // the client comes back: buffered data first, then the close packet
+			for i := 0; i < 3 && !c.dead; i++ {
+				sc.doPoll(c)
+				sc.settle()
+			}
+			w.Expect(sid, "closed")
+		case "silence": // the client never polls again: bounded by the close timeout / the next heartbeat deadline
+			bound := 30 * time.Second
+			if hb := cfg.PI + cfg.PT; hb > bound {
+				bound = hb
+			}
+			w.g.Sleep(bound + 2*time.Second)
+			sc.settle()
+			w.Expect(sid, "closed")
+		case "srvclose": // shutdown while the session is still closing gracefully
+			w.ServerClose()
+			sc.settle()
+			w.Expect(sid, "closed")
+			w.Expect(s2.Sid, "closed")
+		case "closenow":
+			w.Close(sid, true)
+			sc.settle()
+			w.Expect(sid, "closed")
+		}
+		w.Snapshot()
+		sc.Drain()
+		w.Finish()
+	}}
+}
+
+func graceFamily() []Scenario {
+	var out []Scenario
+	for _, kind := range []string{"polling", "websocket"} {
+		for buffered := 0; buffered <= 2; buffered++ {
+			for _, pp := range []bool{false, true} {
+				for _, follow := range []string{"poll", "silence", "srvclose", "closenow"} {
+					for _, fast := range []bool{false, true} {
+						if kind == "websocket" && (pp || follow == "poll") {
+							continue
+						}
+						out = append(out, graceScenario(fmt.Sprintf("grace_%s_b%d_p%v_%s_f%v", kind, buffered, pp, follow, fast), kind, buffered, pp, follow, fast))
+					}
+				}
+			}
+		}
+	}
+	return out
+}
